@@ -158,14 +158,14 @@ Section Schur.
     rewrite (fdot_comm n (fmv n S z)). unfold fdot. ring.
   Qed.
 
-  (* ---- simple kriging: lambda_sk solves Sigma.lambda = sigma0; Var(Z*) = lambda.sigma0 = lambda.Sigma.lambda *)
+  (* ---- simple kriging: lambda_sk solves Sigma.lambda = sigma0; Var(Zstar) = lambda.sigma0 = lambda.Sigma.lambda *)
   Lemma sk_system i : (i < n)%nat -> fmv n Sigma lam_sk i == sigma0 i.
   Proof. intro Hi. unfold lam_sk. apply (finv_solves n Sigma S sigma0 i HS Hi). Qed.
 
   Lemma sk_varz : fdot n lam_sk (fmv n Sigma lam_sk) == fdot n lam_sk sigma0.
   Proof. apply fdot_ext; intros l Hl; [reflexivity|apply sk_system; exact Hl]. Qed.
 
-  (* ---- universal kriging: lambda_uk . (X mu) = mu . x0 (drift rows), hence the forms of Var(Z*) and of the error variance *)
+  (* ---- universal kriging: lambda_uk . (X mu) = mu . x0 (drift rows), hence the forms of Var(Zstar) and of the error variance *)
   Lemma schur_lam_g : fdot n lam_uk g == fdot p mu x0.
   Proof.
     unfold g. rewrite fdot_comb. unfold fdot at 2. apply sumn_ext. intros l Hl.
@@ -187,7 +187,7 @@ Section Schur.
     sigma00 - 2 * fdot n lam_uk sigma0 + fdot n lam_uk (fmv n Sigma lam_uk).
   Proof. rewrite schur_varz. ring. Qed.
 
-  (* ---- dual form (KrigingCalcul::_needDual + _needZstar): c = Sigmac Xt S z, b = S z - S X c, Z* = sigma0.b + x0.c *)
+  (* ---- dual form (KrigingCalcul::_needDual + _needZstar): c = Sigmac Xt S z, b = S z - S X c, Zstar = sigma0.b + x0.c *)
   Definition c_dual (z : fvec) : fvec := fmv p C (fun l => fdot n (fun j => X j l) (fmv n S z)).
   Definition b_dual (z : fvec) : fvec :=
     fun i => fmv n S z i - fmv n S (fun j => sumn p (fun l => X j l * c_dual z l)) i.
@@ -242,8 +242,8 @@ Section Schur.
           replace (n + l - n)%nat with l by lia. ring. }
       pose proof (schur_cov_rows a E) as H. unfold fmv, g in H.
       assert (E2 : sumn p (fun l => - (X a l * mu l)) == - sumn p (fun l => X a l * mu l)).
-      { rewrite <- (sumn_scal_l p (-(1)) (fun l => X a l * mu l)). apply sumn_ext. intros; ring.
-        setoid_replace (- sumn p (fun l => X a l * mu l)) with (-(1) * sumn p (fun l => X a l * mu l)) by ring. reflexivity. }
+      { setoid_replace (- sumn p (fun l => X a l * mu l)) with ((-(1)) * sumn p (fun l => X a l * mu l)) by ring.
+        rewrite <- sumn_scal_l. apply sumn_ext. intros; ring. }
       rewrite E2. lra.
     - apply Nat.ltb_ge in E.
       rewrite (sumn_ext n _ (fun l => X l (a - n)%nat * lam_uk l)).
